@@ -29,7 +29,7 @@ def P_of(hmax, K, R, rewards, emit=0):
 
 def models(chk, tier, invs, props):
     grid = [(1, 2, 5, [0, 1]), (2, 2, 9, [0, 1]), (3, 2, 10, [0, 1]), (1, 3, 6, [-1, 0]), (2, 3, 8, [0, 1])] if tier == "quick" else \
-           [(1, 2, 6, [0, 1, 2]), (2, 2, 10, [0, 1]), (3, 2, 12, [0, 1]), (4, 2, 12, [0, 1]), (1, 3, 7, [-1, 0]), (2, 3, 10, [0, 1]), (3, 3, 9, [0, 1]), (2, 2, 8, [-2, -1, 0])]
+           [(1, 2, 6, [0, 1, 2]), (2, 2, 10, [0, 1]), (3, 2, 13, [0, 1]), (4, 2, 14, [0, 1]), (5, 2, 13, [0, 1]), (1, 3, 7, [-1, 0]), (2, 3, 11, [0, 1]), (3, 3, 10, [0, 1]), (2, 2, 9, [-2, -1, 0]), (2, 4, 9, [0, 1]), (1, 5, 7, [0, 1])]
     seen_centre = False
     for (hmax, K, R, rew) in grid:
         label = "h%d_K%d_R%d" % (hmax, K, R)
